@@ -203,6 +203,36 @@ var earlyTable = []earlyT{
 	{"var x = /a/\ng = 1", "accept", "regexp_flags_detached", "7.8.5 / 7.9.1"},
 	{"x = /a/ g", "reject", "regexp_flags_detached", "7.8.5: flags follow the closing slash immediately"},
 	{"x = /a/g", "accept", "-", "7.8.5"},
+	// 7.7: punctuators written without white space between them; `<!--` and `-->` are not comments in ES5
+	{"x = a<!--b", "accept", "-", "7.7: a < !(--b)"},
+	{"while (i<!--n) {}", "accept", "-", "7.7"},
+	{"1 <!-- ) ] }", "reject", "-", "7.7: `<!--` does not start a comment"},
+	{"x = 1 <!-- comment", "accept", "-", "7.7: 1 < !(--comment)"},
+	{"x = 1 <!-- a comment", "reject", "-", "7.7"},
+	{"x = a-->b", "accept", "-", "7.7: (a--) > b"},
+	{"x = 1\n--> comment", "reject", "-", "7.7: `-->` at the start of a line is not a comment"},
+	{"x = a+++b", "accept", "-", "7.7: (a++) + b"},
+	{"x = a---b", "accept", "-", "7.7"},
+	{"x = a+ +b", "accept", "-", "7.7"},
+	{"x = a++ +b", "accept", "-", "7.7"},
+	{"x = a+++ +b", "accept", "-", "7.7"},
+	{"x = a++++b", "reject", "-", "7.7: a ++ ++ b"},
+	{"x = a>>>=b", "accept", "-", "7.7"},
+	{"x = a>>>>=b", "reject", "-", "7.7: >>> >= has no left operand form"},
+	{"x = a= >b", "reject", "-", "7.7"},
+	{"x = a=>b", "reject", "-", "7.7: no arrow in ES5"},
+	{"x = a!==b", "accept", "-", "7.7"},
+	{"x = a!= =b", "reject", "-", "7.7"},
+	{"x = a</b/", "accept", "-", "7.7 / 7.8.5: after < the slash starts a regular expression: a < /b/"},
+	{"x = a</b/.source", "accept", "-", "7.8.5"},
+	{"x = a/ /re/.source", "accept", "-", "7.8.5"},
+	{"x = a//re/.source", "accept", "-", "7.4: `//` starts a comment; x = a"},
+	{"x = a/*b*/c", "reject", "-", "7.4: x = a c"},
+	{"x = a/ *b", "reject", "-", "11.5"},
+	{"x = 1..toString()", "accept", "-", "7.8.3"},
+	{"x = a?.5:1", "accept", "-", "7.7: ? .5 : 1 (no optional chaining in ES5)"},
+	{"x = a**b", "reject", "-", "7.7: no ** in ES5"},
+	{"x = a??b", "reject", "-", "7.7"},
 	// where a numeric literal token ends (7.8.3)
 	{"x = .5.toFixed(1)", "accept", "-", "7.8.3: the token .5 ends after its digits"},
 	{".125.toString()", "accept", "-", "7.8.3"},
